@@ -48,8 +48,16 @@ Predict1(kind, ft) ==
     ELSE IF ft.f = "type" /\ ft.key = "debug_id" THEN "err"
     ELSE IF ft.f \in {"drop", "null"} /\ ft.key \in {"sourceRoot", "sourcesContent", "ignoreList", "file", "rangeMappings", "debug_id", "version"} THEN "map"
     ELSE "any"
+\* faults are applied in order; a later fault that rewrites the same key undoes an earlier one
+Touches(ft) ==
+    CASE ft.f \in {"drop", "type", "null", "dup", "len"} -> {ft.key}
+      [] ft.f = "num" -> (IF ft.key \in {"ignoreList", "version"} THEN {ft.key} ELSE {})
+      [] ft.f = "vlq" -> {"mappings", "rangeMappings"}
+      [] ft.f = "hermes" -> (IF ft.as = "sparse" THEN {"x_facebook_sources", "sources", "sourcesContent", "mappings"} ELSE {"x_facebook_sources"})
+      [] OTHER -> {}
+Survives(fs, i) == \A j \in DOMAIN fs : j > i => Touches(fs[j]) \cap Touches(fs[i]) = {}
 Predict(kind, fs) ==
-    IF \E i \in DOMAIN fs : Predict1(kind, fs[i]) = "err" THEN "err"
+    IF \E i \in DOMAIN fs : Predict1(kind, fs[i]) = "err" /\ Survives(fs, i) THEN "err"
     ELSE IF \A i \in DOMAIN fs : Predict1(kind, fs[i]) = "map" THEN "map" ELSE "any"
 
 \* ---- life-cycle machine ----
